@@ -7,7 +7,7 @@ syms=set(sys.argv[1].split(',')); n=int(sys.argv[2]); pack=sys.argv[3] if len(sy
 c=core.Check('TST','quick',0)
 MODE='extr' if len(sys.argv)>4 and 'extr' in sys.argv[4] else 'normal'
 OPT=dict(pack=pack); OPT.update(json.loads(sys.argv[4]) if len(sys.argv)>4 else {})
-cfg=tlc.cfg_text(constants={'Sym':syms,'MaxSym':n,'MaxDepth':3,'Free':False},invariants=['SrcIsConc','AnchorsInSrc','AnchorsOrdered','FinalKeeps','Dump'])
+cfg=tlc.cfg_text(constants={'Sym':syms,'MaxSym':n,'MaxDepth':3,'Free':False,'Mode':MODE},invariants=['SrcIsConc','AnchorsInSrc','AnchorsOrdered','FinalKeeps','Dump'])
 r=c.tlc('gen','Gen',cfg)
 beh=r.json('@@'); print('docs',len(beh),'states',r.distinct)
 cases=[{'id':i,'doc':b['doc'],'src':b['src'],'opts':OPT} for i,b in enumerate(beh)]
